@@ -678,6 +678,9 @@ func (s *Server) readResponse() (*agent.Response, error) {
 	return response, nil
 }
 
+// maxBatchSizeHint bounds the capacity preallocated for a batch announced by the UDF process.
+const maxBatchSizeHint = 1 << 20
+
 func (s *Server) handleResponse(response *agent.Response) error {
 	// Always reset the keepalive timer since we received a response
 	select {
@@ -705,7 +708,12 @@ func (s *Server) handleResponse(response *agent.Response) error {
 		return errors.New(msg.Error.Error)
 	case *agent.Response_Begin:
 		s.begin = msg.Begin
-		s.points = make([]edge.BatchPointMessage, 0, msg.Begin.Size)
+		// Size is only a capacity hint chosen by the UDF process, do not trust it.
+		size := msg.Begin.Size
+		if size < 0 || size > maxBatchSizeHint {
+			size = 0
+		}
+		s.points = make([]edge.BatchPointMessage, 0, size)
 	case *agent.Response_Point:
 		if s.points != nil {
 			bp := edge.NewBatchPointMessage(
@@ -741,6 +749,9 @@ func (s *Server) handleResponse(response *agent.Response) error {
 			}
 		}
 	case *agent.Response_End:
+		if s.begin == nil {
+			return errors.New("received end of batch without a begin")
+		}
 		begin := edge.NewBeginBatchMessage(
 			msg.End.Name,
 			msg.End.Tags,
@@ -761,7 +772,7 @@ func (s *Server) handleResponse(response *agent.Response) error {
 		s.begin = nil
 		s.points = nil
 	default:
-		panic(fmt.Sprintf("unexpected response message %T", msg))
+		return fmt.Errorf("unexpected response message %T", msg)
 	}
 	return nil
 }
